@@ -105,8 +105,28 @@ def same_arrays(tr, snap):
     return all(a.shape == b.shape and a.dtype == b.dtype and a.tobytes() == b.tobytes() for a, b in zip(cur, snap))
 
 
-def const(num, den, as_int=False):
-    return int(num) if (as_int and den == 1) else float(Fraction(num, den))
+KTYPES = ['float', 'float', 'int', 'np.int64', 'np.int32', 'np.float64', 'np.float32', 'np.float16', 'Fraction']
+
+
+def const(num, den, as_int=False, ktype=None):
+    """the scaling constant as a Python / numpy number of the requested type, whenever that type holds the
+    value exactly (else a float); the model scales by the exact rational num/den"""
+    import numpy as np
+    if ktype is None:
+        ktype = 'int' if as_int else 'float'
+    f = float(Fraction(num, den))
+    dyadic = den & (den - 1) == 0 and den <= 1024 and abs(num) <= 2048
+    if ktype == 'int' and den == 1:
+        return int(num)
+    if ktype in ('np.int64', 'np.int32') and den == 1:
+        return getattr(np, ktype[3:])(num)
+    if ktype in ('np.float32', 'np.float16') and dyadic:
+        return getattr(np, ktype[3:])(f)
+    if ktype == 'np.float64':
+        return np.float64(f)
+    if ktype == 'Fraction':
+        return Fraction(num, den)
+    return f
 
 
 def run_impl(case):
@@ -125,6 +145,23 @@ def run_impl(case):
         K = MVContext(X, {f: engine for f in names}, target=y, attribute_names=names)
         K2 = MVContext(X, {f: engine2 for f in names}, target=y, attribute_names=names)
         dt, real = build_tree(case, X, y)
+        # the SAME estimator object may have been fitted (and converted) before: other target, depth, seed
+        for j in range(case.get('refit', 0)):
+            if case['src'] == 'dt':
+                params = dt.get_params()
+                dt.set_params(max_depth=[2, None, 1][j % 3], random_state=case['seed'] + 7 + j, max_leaf_nodes=None)
+                dt.fit(X, (y[::-1] + (j + 1) * X[:, 0]) if j % 2 == 0 else -y)
+                guarded(lambda: DLR.from_decision_tree(dt, K).predict(K), 60)
+                dt.set_params(**params)
+                dt.fit(X, y)
+            elif case['src'] == 'mock':
+                actual = dt.tree_
+                from types import SimpleNamespace
+                dt.tree_ = SimpleNamespace(children_left=actual.children_left.copy(), children_right=actual.children_right.copy(),
+                                           feature=actual.feature.copy(), threshold=actual.threshold.copy(),
+                                           value=(-actual.value.copy() + 1 + j))
+                guarded(lambda: DLR.from_decision_tree(dt, K).predict(K), 60)
+                dt.tree_ = actual
         tr = dt.tree_
         snap = snapshot(tr)
         out = {'tree': tree_arrays(tr), 'X': [[ffr(v) for v in row] for row in X],
@@ -159,8 +196,9 @@ def run_impl(case):
         out['pred'] = ['ok', [ffr(v) for v in D.predict(K)]]
         out['n_concepts'] = len(D.lattice)
         sc = []
-        for num, den, mode in case['scales']:
-            k = float(Fraction(num, den))
+        for sc_entry in case['scales']:
+            num, den, mode = sc_entry[:3]
+            k = const(num, den, ktype=sc_entry[3] if len(sc_entry) > 3 else 'float')
 
             def apply():
                 if mode == 0:
@@ -180,7 +218,7 @@ def run_impl(case):
         # histories on the RESULT of a scaling, interleaved with predictions of the original
         if ro[0] == 'ok':
             for h in case.get('hists', []):
-                k = const(h['k'][0], h['k'][1], h.get('as_int', False))
+                k = const(h['k'][0], h['k'][1], h.get('as_int', False), h.get('ktype'))
                 steps = []
 
                 def both(rr):
@@ -195,7 +233,7 @@ def run_impl(case):
                 fresh = R is not D
                 both(R)
                 for op in h['ops']:
-                    c2 = const(op[1], op[2], h.get('as_int', False))
+                    c2 = const(op[1], op[2], h.get('as_int', False), h.get('ktype'))
 
                     def do():
                         nonlocal R
@@ -327,7 +365,10 @@ def random_scales(rng, lo=1, hi=4):
         mode = rng.randrange(4)
         if k == 0 and mode in (2, 3) and rng.random() < 0.7:
             k = Fraction(5, 2)
-        out.append([k.numerator, k.denominator, mode])
+        kt = rng.choice(KTYPES)
+        if k == 0 and kt.startswith('np.'):
+            kt = 'float'          # numpy scalars turn 1/0 into inf with a warning instead of ZeroDivisionError
+        out.append([k.numerator, k.denominator, mode, kt])
     return out
 
 
@@ -344,7 +385,7 @@ def random_hists(rng, lo=1, hi=2):
             c2 = rng.choice(HIST_CONSTS + [Fraction(5, 2)])
             ops.append([rng.choice(['mul', 'div', 'add', 'add']), c2.numerator, c2.denominator])
         out.append({'k': [k.numerator, k.denominator], 'div': rng.random() < 0.4, 'ops': ops,
-                    'as_int': rng.random() < 0.4})
+                    'as_int': rng.random() < 0.4, 'ktype': rng.choice([None, None] + KTYPES)})
     return out
 
 
@@ -421,7 +462,7 @@ def mock_case(rng, max_rows, engine):
         arr = renumber(rng, arr, numbering)
     return {'engine': engine, 'X': [[f2(v) for v in r] for r in X], 'y': [f2(v) for v in y], 'src': 'mock',
             'tree': arr, 'scales': random_scales(rng, 1, 2), 'hists': random_hists(rng), 'depth': None, 'seed': 0,
-            'numbering': numbering}
+            'numbering': numbering, 'refit': rng.choice([0, 0, 1])}
 
 
 def broken_case(rng, max_rows, engine):
@@ -468,7 +509,7 @@ def fitted_case(rng, max_rows, engine):
     X, y = random_table(rng, max_rows)
     c = {'engine': engine, 'X': [[f2(v) for v in r] for r in X], 'y': [f2(v) for v in y],
          'depth': rng.choice([1, 2, 3, None]), 'seed': rng.randrange(1000), 'scales': random_scales(rng, 1, 2),
-         'hists': random_hists(rng),
+         'hists': random_hists(rng), 'refit': rng.choice([0, 0, 1, 1, 2]),
          'mln': rng.choice([None, None, 3, 4, 6, 8])}
     if rng.random() < 0.3:
         c.update(src='rf', rf_n=rng.randint(2, 4))
@@ -512,8 +553,10 @@ def stats(case):
         d['mock_nodes'] = len(case['tree']['cl'])
     if 'broken' in case:
         d['broken'] = case['broken']
+    d['refits_of_same_estimator'] = case.get('refit', 0)
     for s in case['scales']:
         d['mode_%d' % s[2]] = True
+        d['ktype_' + (s[3] if len(s) > 3 else 'float')] = True
     return d
 
 
@@ -541,4 +584,6 @@ def shrink(case):
         out.append(dict(case, depth=case['depth'] - 1))
     if case['src'] == 'rf':
         out.append(dict(case, src='dt', msl=1, mf=None))
+    if case.get('refit', 0) > 0:
+        out.append(dict(case, refit=case['refit'] - 1))
     return out
